@@ -257,6 +257,35 @@ def run(ctx):
               "value is truncated in the FITS table",
               {"guards": guard_names},
               first_row_str if first_row_str is not False else wf.node)
+    # per-type FITS format codes of the helper
+    if tt is None:
+        raise AnalysisError("C18-R5: FITSTableType helper not found")
+    want_codes = {"int": ("J", "K"), "float": ("E", "D"), "bool": ("L",)}
+    seen_types = set()
+    for iff in ast.walk(tt.node):
+        if not (isinstance(iff, ast.If) and isinstance(iff.test, ast.Call)
+                and norm(iff.test.func) == "isinstance"):
+            continue
+        tcls = norm(iff.test.args[1])
+        kind = "bool" if tcls == "bool" else "int" if "int" in tcls else \
+            "float" if "float" in tcls else None
+        if kind is None:
+            continue
+        lits = [x.value.value for x in iff.body if isinstance(x, ast.Assign)
+                and isinstance(x.value, ast.Constant)]
+        seen_types.add(kind)
+        ctx.check("C18-R5", tt, "FITS format for %s values: %s" %
+                  (kind, lits), bool(lits) and all(
+                      l in want_codes[kind] for l in lits),
+                  "%s columns must be written as %s; %s would silently "
+                  "%s" % (kind, "/".join(want_codes[kind]), lits,
+                          "wrap island numbers / pixel counts >= 32768 "
+                          "(16-bit)" if kind == "int" else
+                          "change the stored values"), node=iff)
+    ctx.check("C18-R5", tt, "typed branches %s" % sorted(seen_types),
+              {"int", "float"} <= seen_types,
+              "the FITS type helper must distinguish int and float values",
+              node=tt.node)
     errf = any(isinstance(iff, ast.If) and "err_" in norm(iff.test) and any(
         isinstance(s, ast.Assign) and norm(s.targets[0]) == "fmt" and
         norm(s.value) in ("'E'", "'D'") for s in iff.body)
